@@ -174,6 +174,9 @@ class LogReturns(Harness):
                     continue
                 for rev in (False, True):
                     out.append({"n": n, "zero": list(zero), "pairs": [list(p) for p in pairs], "rev": rev})
+        # drifts given as Python ints (0 / -1), as the API accepts them
+        out.append({"n": 2, "zero": [False, False], "pairs": [[0, 1]], "rev": False, "int_drifts": [0, 0]})
+        out.append({"n": 2, "zero": [False, True], "pairs": [], "rev": False, "int_drifts": [-1, 0]})
         return out
 
     def run(self, g, case):
@@ -182,7 +185,8 @@ class LogReturns(Harness):
         ids = [10 + i for i in range(n)]
         for i, mid in enumerate(ids):
             vol = 0.0 if case["zero"][i] else g.real(f"vol{i}", 0, 10, lo_strict=True)
-            f.add_market(market_id=mid, initial=100.0 + i, drift=g.real(f"mu{i}", -1, 1), volatility=vol)
+            drift = case["int_drifts"][i] if case.get("int_drifts") else g.real(f"mu{i}", -1, 1)
+            f.add_market(market_id=mid, initial=100.0 + i, drift=drift, volatility=vol)
         for k, (a, b) in enumerate(case["pairs"]):
             f.set_correlation(ids[a], ids[b], g.real(f"rho{k}", -1, 1, lo_strict=True, hi_strict=True))
         mon = GenMonitor(g, f)
@@ -408,6 +412,15 @@ class ConfiguredParameters(Harness):
                 st["fundamentalPrice"] = price + 5
             groups[nme] = st
             want[nme] = (float(price + 5 if has_f else price), drift if has_d else 0.0, vol if has_v else 0.0)
+        # the generator API takes the same parameters as plain numbers of either type: an int drift is the same drift
+        twins = []
+        for d0, d1 in ((0, -1), (0.0, -1.0)):
+            ff = Fundamentals(prng=random.Random(5))
+            ff.add_market(market_id=0, initial=100.0, drift=d0, volatility=0.02)
+            ff.add_market(market_id=1, initial=200.0, drift=d1, volatility=0.0)
+            twins.append([ff.get_fundamental_price(k, t) for k in (0, 1) for t in range(4)])
+        g.require(all(abs(a - b) <= 1e-9 * abs(b) for a, b in zip(*twins)), "C12.int-drift!=float-drift",
+                  f"drifts given as ints give another path than the same drifts given as floats: {twins}")
         order = [base[i][0] for i in case["perm"]]
         markets = {n: groups[n] for n in order}
         st = rn.base_settings(n_agents=1, sessions=[rn.session(0, 3, False, False)], markets=markets)
